@@ -156,6 +156,9 @@ func eqVal(w, g reflect.Value, o EqOptions, path string) error {
 			}
 		}
 	case reflect.Array:
+		if w.Type().Elem().Size() == 0 {
+			return nil // zero-size elements have a single value
+		}
 		for i := 0; i < w.Len(); i++ {
 			if err := eqVal(w.Index(i), g.Index(i), o, fmt.Sprintf("%s[%d]", path, i)); err != nil {
 				return err
@@ -167,6 +170,9 @@ func eqVal(w, g reflect.Value, o EqOptions, path string) error {
 		}
 		if w.Len() != g.Len() {
 			return fmt.Errorf("%s: slice len %d != %d", path, w.Len(), g.Len())
+		}
+		if w.Type().Elem().Size() == 0 {
+			return nil // zero-size elements have a single value
 		}
 		for i := 0; i < w.Len(); i++ {
 			if err := eqVal(w.Index(i), g.Index(i), o, fmt.Sprintf("%s[%d]", path, i)); err != nil {
